@@ -407,18 +407,25 @@ def _install_yield_injection():
     rng = random.Random(os.getpid())
     counter = [0]
 
+    slow_codes = set()
+
     def on_line(code, line):
         counter[0] += 1
         r = rng.random()
+        if code in slow_codes:           # shutting a server down is not time critical: give the other threads real time
+            if r < 0.6:
+                time.sleep(0.002)
+            return
         if r < 0.25:
             time.sleep(0)
         elif r < 0.30:
             time.sleep(0.0004)
     mon.register_callback(tool, mon.events.LINE, on_line)
-    funcs = [srv.Server._serve_client, srv.Server._authenticate_and_serve_client, srv.Server.accept, srv.ThreadedServer._accept_method,
+    funcs = [srv.Server.close, srv.ThreadPoolServer.close, srv.Server._serve_client, srv.Server._authenticate_and_serve_client, srv.Server.accept, srv.ThreadedServer._accept_method,
              srv.ThreadPoolServer._accept_method, srv.ThreadPoolServer._authenticate_and_build_connection,
              srv.ThreadPoolServer._serve_requests, srv.ThreadPoolServer._drop_connection, srv.ThreadPoolServer._handle_poll_result,
              service.Service.__dict__["_connect"].func, protocol.Connection.__init__]
+    slow_codes.update((srv.Server.close.__code__, srv.ThreadPoolServer.close.__code__))
     for f in funcs:
         code = getattr(f, "__code__", None)
         if code is not None:
